@@ -74,7 +74,7 @@ REQUIRED = ["findEntryAndExitPoints_empty", "intersects_empty",
             "intersects_ip_in_box_always", "findEntryAndExitPoints_points_in_box",
             "findEntryAndExitPoints_unwritten", "findEntryAndExitPoints_unwritten_zero_dir",
             "intersects_false_hit_only_if", "findEntryAndExitPoints_false_hit_only_if",
-            "findEntryAndExitPoints_unwritten_witness",
+            "findEntryAndExitPoints_unwritten_witness", "findEntryAndExitPoints_near_face_miss_witness",
             "oracleLine_iff", "oracleRay_iff", "spec_feHit_iff", "spec_isHit_iff", "spec_entry", "spec_exit", "spec_ip"]
 
 # per-axis (min,max) pairs; boxes = pairs^3.  (1,0) is inverted (empty box), (a,a) flat.
